@@ -116,6 +116,151 @@ def gen_history(rnd, hid, mods, flags, nconn, depth, profile):
     return {"hid": hid, "config": {"mods": mods, "flags": flags}, "steps": steps}
 
 
+def gen_dense(rnd, hid, mods, flags, depth):
+    """valid-biased history: the generator tracks what it expects to exist (members, entities and their owners, types,
+    components, subscriptions) and mostly issues requests that name existing things, so that the accepted paths with
+    their relays (component add / update / delete to subscribers, poses, actions, departures of owners of entities
+    that carry components) are dense; about one request in eight is drawn like in gen_history (refusals)."""
+    steps, n = [], [0]
+    conns = [1, 2, 3, 4]
+    joined = {}              # conn -> session
+    ents = {}                # eid -> (conn, persist)  (session 1 only)
+    ecur = [0]
+    types = []               # names registered in session 1 (ids 1..)
+    comps = set()            # (tid, eid)
+    subs = set()             # (conn, tid)
+
+    def req(c, **r):
+        n[0] += 1
+        r.update(rid=n[0], ts=n[0])
+        steps.append({"step": "Req", "conn": c, "req": r})
+
+    def parked(c, **r):
+        n[0] += 1
+        r.update(rid=n[0], ts=n[0])
+        steps.append({"step": "Recv", "conn": c, "req": r})
+        if rnd.random() < 0.7:
+            steps.append({"step": "Tick", "sid": 1})
+            for d in conns:
+                steps.append({"step": "Proc", "conn": d})
+
+    def members():
+        return [c for c in conns if joined.get(c) == 1]
+
+    def leave(c):
+        for e, (o, p) in list(ents.items()):
+            if o == c and not p:
+                del ents[e]
+                for k in list(comps):
+                    if k[1] == e:
+                        comps.discard(k)
+            elif o == c:
+                ents[e] = (0, p)        # persistent entity of a departed owner
+        for k in list(subs):
+            if k[0] == c:
+                subs.discard(k)
+        joined.pop(c, None)
+
+    req(1, k="Join", sid=0)
+    joined[1] = 1
+    while len(steps) < depth:
+        ms = members()
+        x = rnd.random()
+        if not ms:
+            # the session ended: this generator follows one session only
+            break
+        if x < 0.12:
+            profile = {"kinds": None}
+            k = rnd.choice([k for k, _ in KINDS])
+            n[0] += 1
+            steps.append({"step": "Req", "conn": rnd.choice(conns), "req": gen_req(rnd, k, n[0], 4, {})})
+            continue
+        c = rnd.choice(ms)
+        mine = [e for e, (o, p) in ents.items() if o == c]
+        free = [q for q in conns if joined.get(q) != 1]
+        ops = [("join", 2 if free else 0), ("eadd", 2 if len(ents) < 4 else 0), ("tadd", 2 if len(types) < 3 else 0),
+               ("sub", 3 if types else 0), ("unsub", 2 if subs else 0), ("cadd", 4 if types and ents else 0),
+               ("cupd", 6 if comps else 0), ("cdel", 2 if comps else 0), ("edel", 1 if mine else 0), ("pose", 2 if mine else 0),
+               ("custom", 1), ("action", 2 if ents and "vikja" in mods else 0), ("asset", 1 if mine and "odal" in mods else 0),
+               ("list", 1 if types else 0), ("disc", 1 if len(ms) > 1 else 0), ("switch", 0.5 if len(ms) > 1 else 0), ("tick", 2)]
+        op = rnd.choices([o for o, _ in ops], [w for _, w in ops])[0]
+        if op == "join":
+            d = rnd.choice(free)
+            if d not in joined:
+                steps.append({"step": "Open", "conn": d})
+            req(d, k="Join", sid=1)
+            joined[d] = 1
+        elif op == "eadd":
+            p = rnd.random() < 0.35
+            req(c, k="EntityAdd", persist=p, flag=rnd.choice([0, 1]), px=rnd.choice([1, 2, 3]))
+            ecur[0] += 1
+            ents[ecur[0]] = (c, p)
+        elif op == "tadd":
+            nm = ["a", "b", "c"][len(types)] if rnd.random() < 0.8 else rnd.choice(["a", "b"])
+            req(c, k="TypeAdd", name=nm)
+            if nm not in types:
+                types.append(nm)
+        elif op == "sub":
+            t = rnd.randint(1, len(types))
+            req(c, k="Sub", tid=t)
+            subs.add((c, t))
+        elif op == "unsub":
+            # by a subscriber, or (a third of the time) by a member that is not subscribed to that type
+            if rnd.random() < 0.65:
+                d, t = rnd.choice(sorted(subs))
+            else:
+                d, t = c, rnd.randint(1, len(types))
+            if d in ms:
+                req(d, k="Unsub", tid=t)
+                subs.discard((d, t))
+        elif op == "cadd":
+            t, e = rnd.randint(1, len(types)), rnd.choice(sorted(ents))
+            req(c, k="CompAdd", tid=t, eid=e, data=rnd.choice([1, 2, 3]))
+            comps.add((t, e))
+        elif op == "cupd":
+            t, e = rnd.choice(sorted(comps))
+            parked(c, k="CompUpdate", tid=t, eid=e, data=rnd.choice([0, 1, 2, 3]))
+        elif op == "cdel":
+            t, e = rnd.choice(sorted(comps))
+            req(c, k="CompDelete", tid=t, eid=e)
+            comps.discard((t, e))
+        elif op == "edel":
+            e = rnd.choice(mine)
+            req(c, k="EntityDelete", eid=e)
+            del ents[e]
+            for k in list(comps):
+                if k[1] == e:
+                    comps.discard(k)
+        elif op == "pose":
+            parked(c, k="Pose", eid=rnd.choice(mine), px=rnd.choice([1, 2, 3, 4, 5, 6, 7]))
+        elif op == "custom":
+            req(c, k="Custom", len=rnd.choice([1, 5, 10240, 10241]), dig=n[0], to=rnd.choice([[], [], [1, 2], [2, 3, 2], [9]]))
+        elif op == "action":
+            req(c, k="Action", eid=rnd.choice(sorted(ents)), name=rnd.choice(["x", "y"]), ats=rnd.choice([1, 2, 2, 3]), data=rnd.choice([0, 1, 2]), has=True)
+        elif op == "asset":
+            req(c, k="AssetAdd", eid=rnd.choice(mine), asset=rnd.choice(["m", "n"]))
+        elif op == "list":
+            req(c, k="CompList", tid=rnd.randint(1, len(types)))
+        elif op == "disc":
+            steps.append({"step": "Disc", "conn": c, "cause": "close"})
+            leave(c)
+        elif op == "switch":
+            req(c, k="Join", sid=0)
+            leave(c)
+            joined[c] = 2
+        elif op == "tick":
+            steps.append({"step": "Tick", "sid": rnd.choice([1, 1, 2])})
+            for d in conns:
+                steps.append({"step": "Proc", "conn": d})
+    for _ in range(2):
+        for sid in (1, 2, 3):
+            steps.append({"step": "Tick", "sid": sid})
+        for c in conns:
+            for _ in range(4):
+                steps.append({"step": "Proc", "conn": c})
+    return {"hid": hid, "config": {"mods": mods, "flags": flags}, "steps": steps}
+
+
 def main():
     ap = argparse.ArgumentParser()
     ap.add_argument("--seed", type=int, default=1)
@@ -126,6 +271,7 @@ def main():
     ap.add_argument("--flags", default="")
     ap.add_argument("--nonilpose", action="store_true")
     ap.add_argument("--kinds", default="")
+    ap.add_argument("--dense", action="store_true")
     ap.add_argument("--out", required=True)
     a = ap.parse_args()
     rnd = random.Random(a.seed)
@@ -133,6 +279,9 @@ def main():
     flags = [f for f in a.flags.split(",") if f]
     with open(a.out, "w") as f:
         for i in range(a.n):
+            if a.dense:
+                f.write(json.dumps(gen_dense(rnd, f"d{a.seed}-{i}", mods, flags, a.depth)) + "\n")
+                continue
             nconn = rnd.randint(2, a.conns)
             h = gen_history(rnd, f"r{a.seed}-{i}", mods, flags, nconn, a.depth, {"nonilpose": a.nonilpose, "kinds": [k for k in a.kinds.split(",") if k]})
             f.write(json.dumps(h) + "\n")
